@@ -2,7 +2,7 @@ CONSTANTS
  MaxLen = 3
  Alpha = "all"
  Variant = "waits"
+ Pols = {"all", "g1", "g2"}
 SPECIFICATION Spec
 INVARIANT Refines
-INVARIANT EmitPrediction
 CHECK_DEADLOCK FALSE
